@@ -1476,3 +1476,90 @@ func edgeIsNonNilBranch(v ssa.Value, pred, succ *ssa.BasicBlock) bool {
 	}
 	return nonNil == succ && nilSucc != succ
 }
+
+// rmw-atomic: in the function, no path leads from a read of the package variable to a write of it through an
+// explicit Unlock of the mutex: a value read and the update based on it lie in one critical section (a deferred
+// Unlock runs at return and splits nothing). Entries appended by another goroutine between a snapshot and a later
+// reset would otherwise be lost. args: func, global (variable name), mutex (global:<name>).
+func runRMWAtomic(prog *Prog, sc StaticCheck) *StaticResult {
+	res := &StaticResult{Name: sc.Name, Kind: sc.Kind}
+	fn := prog.FindFunc(modPath+"/"+sc.Pkg, sc.Args["func"])
+	if fn == nil {
+		res.Obligations = 1
+		res.Failures = append(res.Failures, "binding: function "+sc.Args["func"]+" not found")
+		return res
+	}
+	mu := parseLoc(sc.Args["mutex"])
+	isG := func(v ssa.Value) bool {
+		g, ok := v.(*ssa.Global)
+		return ok && g.Name() == sc.Args["global"]
+	}
+	type pt struct {
+		b *ssa.BasicBlock
+		i int
+	}
+	var loads []pt
+	nStores, nLocks := 0, 0
+	for _, b := range fn.Blocks {
+		for i, in := range b.Instrs {
+			if u, ok := in.(*ssa.UnOp); ok && u.Op == token.MUL && isG(u.X) {
+				loads = append(loads, pt{b, i})
+			}
+			if st, ok := in.(*ssa.Store); ok && isG(st.Addr) {
+				nStores++
+			}
+			if ev, ok := lockCall(in, mu); ok && ev.lock {
+				nLocks++
+			}
+		}
+	}
+	if len(loads) == 0 || nStores == 0 || nLocks == 0 {
+		res.Obligations = 1
+		res.Failures = append(res.Failures, fmt.Sprintf("binding: %s has %d reads, %d writes of %s and %d Lock calls on %s (stale obligation)", sc.Args["func"], len(loads), nStores, sc.Args["global"], nLocks, sc.Args["mutex"]))
+		return res
+	}
+	for _, l := range loads {
+		res.Obligations++
+		type state struct {
+			b      *ssa.BasicBlock
+			i      int
+			passed bool
+		}
+		seen := map[state]bool{}
+		work := []state{{l.b, l.i + 1, false}}
+		bad := ""
+		for len(work) > 0 && bad == "" {
+			s := work[len(work)-1]
+			work = work[:len(work)-1]
+			if seen[s] {
+				continue
+			}
+			seen[s] = true
+			passed := s.passed
+			i := s.i
+			for ; i < len(s.b.Instrs); i++ {
+				in := s.b.Instrs[i]
+				if ev, ok := lockCall(in, mu); ok && !ev.lock {
+					passed = true
+				}
+				if st, ok := in.(*ssa.Store); ok && isG(st.Addr) && passed {
+					bad = posOf(prog, st.Pos())
+					break
+				}
+			}
+			if bad != "" {
+				break
+			}
+			for _, nb := range s.b.Succs {
+				work = append(work, state{nb, 0, passed})
+			}
+		}
+		if bad == "" {
+			res.Discharged++
+		} else {
+			res.Failures = append(res.Failures, fmt.Sprintf("%s reads %s at %s and writes it at %s after releasing %s in between: the read and the update are not one critical section", sc.Args["func"], sc.Args["global"], posOf(prog, l.b.Instrs[l.i].Pos()), bad, sc.Args["mutex"]))
+		}
+	}
+	res.Samples = append(res.Samples, map[string]interface{}{"obligation": fmt.Sprintf("%s#rmw-atomic(%s under %s)", sc.Args["func"], sc.Args["global"], sc.Args["mutex"]), "backend": "path search over the SSA control-flow graph", "reads": len(loads), "writes": nStores})
+	return res
+}
